@@ -1,4 +1,4 @@
-"""R12  symbolic verification of the supernodal update kernels (?column_bmod, ?panel_bmod; real instantiations).
+"""R12  abstract interpretation of the supernodal update kernels in a polynomial index domain (?column_bmod, ?panel_bmod; real instantiations).
 
 The numerical update of a column by an earlier supernode [fsupc..krep] is a unit-lower-triangular solve with the block L[kfnz..krep, kfnz..krep]
 followed by a product with the rows below.  Short segments (1, 2, 3) are hand-unrolled, longer ones go through ?trsv_/?gemv_ (or the bundled
@@ -7,9 +7,11 @@ kernels).  All of it is index arithmetic on one column-major block:
       value of L(stored row r, column c)  =  lusup[ xlusup[fsupc] + (c - fsupc) * nsupr + r ]          stored row r  <->  lsub[ xlsub[fsupc] + r ]
       the diagonal of column c is stored row c - fsupc
 
-The routine is executed symbolically, once per segment-size case (1, 2, 3, >= 4) and per blocking branch: integers are polynomials over
-(fsupc, krep, kfnz, fst_col, nsupr, loop counters ...), loops are executed once with a symbolic iteration number, and every floating-point
-statement of the recognised shapes gives obligations that must hold as polynomial identities:
+This is a forward flow analysis whose abstract values are integer polynomials over (fsupc, krep, kfnz, fst_col, nsupr, ...): one pass over the body
+of the loop over updating supernodes per segment-size class (1, 2, 3, >= 4: the classes the code itself branches on) and per blocking branch;
+counting loops are summarised by their affine induction variables (value at entry + iteration number * increment, value at exit from the trip
+count), so nothing is unrolled or enumerated and no solver is involved: every obligation is an identity between two polynomials in normal
+form.  Each floating-point statement of the recognised shapes gives obligations:
 
    X -= Y * lusup[P]          column(P) = row of Y,   stored row(P) = row of X,   Y is final (all earlier rows of the segment already applied)
    dense[..] = X              X is final and goes back to its own row;   rows below receive every row of the segment
